@@ -13,6 +13,7 @@ import (
 	"os"
 	"path/filepath"
 	"reflect"
+	"runtime"
 	"sort"
 	"strconv"
 	"strings"
@@ -480,6 +481,17 @@ func (r *run) c06Structured(t typeInfo, thorough bool) {
 
 // ---- C08: totality and ranges ----
 
+// f16Documented: the value range each 9.xxx type documents (its String / Unit, its error text and
+// the KNX datapoint table): what a decoded value may be
+var f16Documented = map[string][2]float64{
+	"DPT_9001": {-273, 670760}, "DPT_9002": {-670760, 670760}, "DPT_9003": {-670760, 670760},
+	"DPT_9004": {0, 670760}, "DPT_9005": {0, 670760}, "DPT_9006": {0, 670760}, "DPT_9007": {0, 670760},
+	"DPT_9008": {0, 670760}, "DPT_9010": {-670760, 670760}, "DPT_9011": {-670760, 670760},
+	"DPT_9020": {-670760, 670760}, "DPT_9021": {-670760, 670760}, "DPT_9022": {-670760, 670760},
+	"DPT_9023": {-670760, 670760}, "DPT_9024": {-670760, 670760}, "DPT_9025": {-670760, 670760},
+	"DPT_9026": {-670760, 670760}, "DPT_9027": {-459.6, 670760}, "DPT_9028": {0, 670760}, "DPT_9029": {0, 670760},
+}
+
 func (r *run) c08Check(t typeInfo, p []byte, emit bool) {
 	op := "dpu " + t.name + " " + hx(p)
 	cls, val, d, msg := unpack(t.key, p)
@@ -547,6 +559,9 @@ func (r *run) c08Check(t typeInfo, p []byte, emit bool) {
 		f := v.Float()
 		if math.IsNaN(f) || math.IsInf(f, 0) || f < -671088.64 || f > 670760.96 {
 			bad("16-bit float outside its representable range")
+		}
+		if rg, ok := f16Documented[t.name]; ok && (f < rg[0] || f > rg[1]) {
+			bad(fmt.Sprintf("outside the type's documented range [%g, %g]", rg[0], rg[1]))
 		}
 	}
 }
@@ -672,19 +687,30 @@ func main() {
 		gen: map[string]int{}, rnd: rand.New(rand.NewSource(*seed))}
 	start := time.Now()
 	thorough := *budget >= 1000000
-	switch *prop {
-	case "C06":
-		r.c06(*budget, thorough)
-	case "C07":
-		r.c07(*budget, thorough)
-	case "C08":
-		r.c08(*budget, thorough)
-	case "C19":
-		r.c19(*budget, thorough)
-	default:
-		fmt.Fprintln(os.Stderr, "unknown -prop")
-		os.Exit(2)
-	}
+	func() {
+		// a panic of the library outside the guarded calls (a generator building a value through the
+		// library, a call on the main goroutine) is a finding, not a harness failure
+		defer func() {
+			if p := recover(); p != nil {
+				buf := make([]byte, 4096)
+				n := runtime.Stack(buf, false)
+				r.violation("library-panic", "a call into the library made by the generator / harness itself", fmt.Sprint(p)+" | "+strings.ReplaceAll(string(buf[:n]), "\n", " "))
+			}
+		}()
+		switch *prop {
+		case "C06":
+			r.c06(*budget, thorough)
+		case "C07":
+			r.c07(*budget, thorough)
+		case "C08":
+			r.c08(*budget, thorough)
+		case "C19":
+			r.c19(*budget, thorough)
+		default:
+			fmt.Fprintln(os.Stderr, "unknown -prop")
+			os.Exit(2)
+		}
+	}()
 	r.ops.Flush()
 	r.impl.Flush()
 	of.Close()
